@@ -88,6 +88,7 @@ func checkCmd(args []string) {
 	updateBaseline := fs.Bool("update-baseline", false, "rewrite the baseline from this run (development only)")
 	repo := fs.String("repo", "/repo", "repository")
 	verbose := fs.Bool("v", false, "verbose")
+	noEv := fs.Bool("no-evidence", false, "do not rewrite the evidence file (used when evaluating seeded changes)")
 	fs.Parse(args)
 	if *tier == "" {
 		*tier = os.Getenv("VERIF_TIER")
@@ -96,7 +97,7 @@ func checkCmd(args []string) {
 		*tier = "quick"
 	}
 	seed, _ := strconv.Atoi(os.Getenv("VERIF_SEED"))
-	code, _ := runCheck(*prop, *tier, seed, *repo, nil, *updateBaseline, *verbose, os.Stdout, true)
+	code, _ := runCheck(*prop, *tier, seed, *repo, nil, *updateBaseline, *verbose, os.Stdout, !*noEv)
 	if *tier == "thorough" && code == 0 {
 		// thorough tier: must-fail / must-pass self-test of the machinery on in-memory mutants
 		if st := runSelftest(*prop, *repo, os.Stdout, ""); st != 0 {
@@ -199,6 +200,7 @@ func runCheck(id, tier string, seed int, repo string, overlay map[string][]byte,
 	var undecided []string
 	encs := map[string]*fnEnc{}
 	var fnames []string
+	skipped := map[string]bool{}
 	for _, f := range cfg.Functions {
 		name := fullFuncName(f)
 		fnames = append(fnames, name)
@@ -206,6 +208,16 @@ func runCheck(id, tier string, seed int, repo string, overlay map[string][]byte,
 			undecided = append(undecided, "orphan: function "+f+" not found")
 			fmt.Fprintf(w, "UNDECIDED orphan function=%s\n", f)
 			continue
+		}
+		if overlay != nil {
+			// self-test mutant: only the functions whose body is in a mutated file can
+			// change verdict (every other function sees the mutated ones by contract)
+			fn := eng.funcs[name]
+			file := fn.Prog.Fset.Position(fn.Pos()).Filename
+			if _, mutated := overlay[file]; !mutated {
+				skipped[name] = true
+				continue
+			}
 		}
 		if c := eng.contracts[name]; c == nil {
 			undecided = append(undecided, "no contract for "+f)
@@ -226,7 +238,11 @@ func runCheck(id, tier string, seed int, repo string, overlay map[string][]byte,
 		}
 	}
 	// lemmas
-	lemObls, lerr := eng.LemmaObligations(cfg.Lemmas)
+	lemmas := cfg.Lemmas
+	if overlay != nil {
+		lemmas = nil // lemmas do not depend on function bodies
+	}
+	lemObls, lerr := eng.LemmaObligations(lemmas)
 	for _, e := range lerr {
 		undecided = append(undecided, e)
 		fmt.Fprintln(w, "UNDECIDED", e)
@@ -250,8 +266,18 @@ func runCheck(id, tier string, seed int, repo string, overlay map[string][]byte,
 	}
 	if len(retry) > 0 {
 		r2 := SolveAll(retry, outDir, 5*timeout, 4)
+		var retry2 []*Obligation
 		for o, r := range r2 {
 			results[o] = r
+			if r.Status == "unknown" || r.Status == "timeout" {
+				retry2 = append(retry2, o)
+			}
+		}
+		// last resort (a loaded machine must not turn into an alarm): 20x, two at a time
+		if len(retry2) > 0 && len(retry2) <= 4 && overlay == nil {
+			for o, r := range SolveAll(retry2, outDir, 20*timeout, 2) {
+				results[o] = r
+			}
 		}
 	}
 
@@ -297,7 +323,9 @@ func runCheck(id, tier string, seed int, repo string, overlay map[string][]byte,
 			case kf != nil:
 				rep.Verdict = "known-finding"
 				knownLines = append(knownLines, fmt.Sprintf("KNOWN-FINDING: property=%s %s %s", id, o.Name, kf.Witness))
-				counted-- // not part of the proof claim
+				if inBase || updateBaseline {
+					counted-- // not part of the proof claim
+				}
 			case inBase && r.Status == "sat":
 				path, reproduced := writeReplay(id, o, r, eng, cfg)
 				suffix := ""
@@ -340,6 +368,15 @@ func runCheck(id, tier string, seed int, repo string, overlay map[string][]byte,
 	var orphans []string
 	for n := range baseline {
 		if !seen[n] {
+			if overlay != nil {
+				fn := n
+				if k := strings.Index(n, "#"); k >= 0 {
+					fn = n[:k]
+				}
+				if skipped[fn] || skipped[fullFuncName(fn)] || strings.HasPrefix(n, "lemma") {
+					continue
+				}
+			}
 			orphans = append(orphans, n)
 		}
 	}
